@@ -16,6 +16,10 @@ Lemma empty_rejected : Constants.EMPTY_NAME_REJECTED = true. Proof. reflexivity.
 Lemma separator_rejected : Constants.SEPARATOR_REJECTED = true. Proof. reflexivity. Qed.
 Lemma reduce_shift_agrees : Constants.REDUCE_SHIFT = Pinned.REDUCE_SHIFT. Proof. reflexivity. Qed.
 
+(** The library proper uses no blocking construct (mutex, once, condvar, barrier, sleep,
+    park, advisory file lock, join, channel): scanned from the current source. *)
+Lemma no_blocking_primitive : Constants.BLOCKING_PRIMITIVES = nil. Proof. reflexivity. Qed.
+
 (** Side conditions on constants the properties leave free. *)
 Lemma delta_covers_granularity : (2 <= Constants.DELTA_SEC)%Z. Proof. unfold Constants.DELTA_SEC. lia. Qed.
 Lemma sharded_scale_positive : (1 <= Constants.SHARDED_MAINTENANCE_SCALE)%N. Proof. unfold Constants.SHARDED_MAINTENANCE_SCALE. lia. Qed.
